@@ -1,5 +1,172 @@
-(* C11 — placeholder while the harness/model tie is being brought up. *)
-From WK Require Import Base.Base Gen.Consts_C11 Model.Backup Model.Backup_C11.
+(* C11 — Backup and restore reproduce committed data exactly.
+   Only statements, each closed by [exact] of a lemma from Proof/Backup*.v.
+
+   Model/Backup.v: the two portable streams (WKMB message snapshots of pkg/db/message, WKDB
+   hash-slot snapshots of pkg/db/meta) with their framing concrete, and the streaming
+   importers ImportBackupSnapshotReader / importHashSlotSnapshotReader check by check.
+   The checksum [ck] is an arbitrary function (conclusions mention an explicit collision
+   where one is needed); the row / proposal / identity decoders of the message domain and
+   validateBackupProposalSystemEntries are arbitrary tables [orc]. *)
+From WK Require Import Base.Base Base.Bytes Gen.Consts_C11 Model.Crc32 Model.Backup Model.Backup_C11.
+From WK Require Import Proof.Backup Proof.Backup_import Proof.Backup_roundtrip Proof.Backup_findings Proof.Backup_monitor.
 Open Scope N_scope.
-Example c11_placeholder : get_uvarint (put_uvarint 300) = Some (300, []).
-Proof. vm_compute. reflexivity. Qed.
+
+(* ---- framing: what is written is what is read ------------------------------------------------ *)
+
+Theorem c11_uvarint_roundtrip : forall x rest, x < 2 ^ 64 -> get_uvarint (put_uvarint x ++ rest) = Some (x, rest).
+Proof. exact uvarint_roundtrip. Qed.
+Print Assumptions c11_uvarint_roundtrip.
+
+(* a message snapshot (any number of channel sections, system entries, rows) decodes to itself *)
+Theorem c11_msg_stream_roundtrip : forall s,
+  rs_hash_slot s < 2 ^ 16 -> N.of_nat (length (rs_chans s)) < 2 ^ 32 -> Forall chan_wf (rs_chans s) ->
+  dec_msg_payload (enc_msg_payload s) = Some (s, []).
+Proof. exact msg_payload_roundtrip. Qed.
+Print Assumptions c11_msg_stream_roundtrip.
+
+Theorem c11_meta_stream_roundtrip : forall s,
+  rm_slots s <> [] -> N.of_nat (length (rm_slots s)) < 2 ^ 16 -> Forall (fun x => x < 2 ^ 16) (rm_slots s) ->
+  rm_count s = N.of_nat (length (rm_entries s)) -> rm_count s <= 9223372036854775807 ->
+  Forall entry_wf (rm_entries s) ->
+  dec_meta_payload (enc_meta_payload s) = Some (s, []).
+Proof. exact meta_payload_roundtrip. Qed.
+Print Assumptions c11_meta_stream_roundtrip.
+
+(* ---- restore yields exactly the exported sections ------------------------------------------- *)
+
+(* ImportBackupSnapshotReader, not cancelled, into a store that holds none of the channels:
+   success means that the store now holds, for every section of the stream, exactly that
+   section (catalog identity, checkpoint, system entries = proposal / identity / idempotency
+   state, rows), and that no other channel changed *)
+Theorem c11_restore_exact : forall ck orc stream tgt tgt' st,
+  (forall key, absent key tgt) ->
+  import_reader ck None orc stream tgt = (tgt', Ok st) ->
+  exists p s, verify_checksum ck stream = Ok p /\ dec_msg_payload p = Some (s, [])
+              /\ (forall c, In c (rs_chans s) -> find_dump (rc_key c) tgt' = restored c)
+              /\ (forall key, (forall c, In c (rs_chans s) -> rc_key c <> key) -> find_dump key tgt' = find_dump key tgt).
+Proof. exact restore_exact. Qed.
+Print Assumptions c11_restore_exact.
+
+(* an exported section holds no row above the committed cut *)
+Theorem c11_nothing_above_cut : forall vt d c s,
+  export_chan vt d c = Ok s -> Forall (fun r => rr_seq r <= cu_hw c) (rc_rows s).
+Proof. exact exported_rows_within_cut. Qed.
+Print Assumptions c11_nothing_above_cut.
+
+(* FULL STATEMENT (the restored log ends at the cut): for every source store, cut and restore,
+   LEO(restored channel) = hw.  It is FALSE of the faithful model and of the code (known finding
+   C11-K1): the retention row is shipped verbatim and its RetainedMaxSeq may lie above the cut. *)
+Theorem c11_restored_leo_refuted :
+  exists s, export_chan k1_vt k1_src k1_cut = Ok s
+            /\ In (se_key k1_retention, se_val k1_retention) (rc_sys s)
+            /\ Forall (fun r => rr_seq r <= cu_hw k1_cut) (rc_rows s)
+            /\ cu_hw k1_cut < dump_leo (rc_rows s) 3.
+Proof. exact k1_restored_leo_above_cut_refuted. Qed.
+Print Assumptions c11_restored_leo_refuted.
+
+(* ---- rejected rather than partially applied --------------------------------------------------- *)
+
+(* what the streaming importer accepts is sealed and completely framed *)
+Theorem c11_accepts_only_framed : forall ck c orc stream tgt tgt' st,
+  import_reader ck c orc stream tgt = (tgt', Ok st) ->
+  exists p s, verify_checksum ck stream = Ok p /\ dec_msg_payload p = Some (s, []).
+Proof. exact import_accepts_framed. Qed.
+Print Assumptions c11_accepts_only_framed.
+
+(* all-or-nothing: without cancellation, on a store that holds none of the channels, the importer
+   either rejects and returns the store untouched, or installs the whole stream *)
+Theorem c11_reject_all_or_nothing : forall ck orc stream tgt tgt' r,
+  (forall key, absent key tgt) ->
+  import_reader ck None orc stream tgt = (tgt', r) ->
+  (exists e, r = Err e /\ tgt' = tgt) \/ (exists st, r = Ok st).
+Proof. exact import_all_or_nothing. Qed.
+Print Assumptions c11_reject_all_or_nothing.
+
+(* EVERY truncation of an accepted stream is rejected — by the framing alone, whatever the
+   checksum function, the tables, the context and the target are — and the target is untouched *)
+Theorem c11_truncation_rejected : forall ck c orc stream tgt tgt' st n,
+  import_reader ck c orc stream tgt = (tgt', Ok st) -> (n < length stream)%nat ->
+  forall c2 orc2 tgt2, exists e, import_reader ck c2 orc2 (firstn n stream) tgt2 = (tgt2, Err e).
+Proof. exact truncation_rejected. Qed.
+Print Assumptions c11_truncation_rejected.
+
+(* corruption of the payload under an unchanged trailer: same payload, or an explicit collision *)
+Theorem c11_payload_corruption_detected : forall ck s1 s2 p1 p2,
+  verify_checksum ck s1 = Ok p1 -> verify_checksum ck s2 = Ok p2 ->
+  skipn (length s1 - 4) s1 = skipn (length s2 - 4) s2 ->
+  p1 = p2 \/ ck_collision ck.
+Proof. exact same_trailer_same_payload. Qed.
+Print Assumptions c11_payload_corruption_detected.
+
+(* corruption of the trailer: rejected *)
+Theorem c11_trailer_corruption_rejected : forall ck p t t',
+  verify_checksum ck (p ++ t) = Ok p -> length t = 4%nat -> length t' = 4%nat ->
+  all_bytes t = true -> all_bytes t' = true -> t' <> t ->
+  verify_checksum ck (p ++ t') = Err EChecksum.
+Proof. exact trailer_change_rejected. Qed.
+Print Assumptions c11_trailer_corruption_rejected.
+
+(* metadata: accepted streams are sealed, framed, addressed to the request, and every key lies
+   in the requested hash slots (a wrong hash slot is a rejection) *)
+Theorem c11_meta_accepts_only_framed : forall ck c req preserve invalidate stream db db' cnt,
+  import_meta ck c req preserve invalidate stream db = (db', Ok cnt) ->
+  exists p s, verify_meta_checksum ck stream = Ok p /\ dec_meta_payload p = Some (s, [])
+              /\ rm_slots s = normalize_slots req
+              /\ forallb (fun e => in_slots (normalize_slots req) (fst e)) (rm_entries s) = true.
+Proof. exact import_meta_accepts_framed. Qed.
+Print Assumptions c11_meta_accepts_only_framed.
+
+(* metadata, without token invalidation: a rejection (anything but a cancelled context) returns
+   the store untouched — checksum, framing, slot list, foreign keys are all found before the
+   delete batch *)
+Theorem c11_meta_reject_untouched : forall ck c req preserve stream db db' e,
+  import_meta ck c req preserve false stream db = (db', Err e) -> e <> EOther -> db' = db.
+Proof. exact import_meta_rejected_untouched. Qed.
+Print Assumptions c11_meta_reject_untouched.
+
+(* FULL STATEMENT for the restore flavour (token invalidation on): FALSE of the faithful model
+   and of the code (known finding C11-K4) — values are decoded after the delete batch *)
+Theorem c11_meta_invalidate_partial_refuted :
+  exists db', import_meta crc None [7] true true k4_stream [k4_old] = (db', Err ECorruptValue)
+              /\ db' <> [k4_old] /\ in_slots [7] (fst k4_bad) = true.
+Proof. exact k4_invalidate_partial_refuted. Qed.
+Print Assumptions c11_meta_invalidate_partial_refuted.
+
+Theorem c11_meta_truncation_rejected : forall ck c req preserve invalidate stream db db' cnt n,
+  import_meta ck c req preserve invalidate stream db = (db', Ok cnt) -> (n < length stream)%nat ->
+  forall c2 req2 pr2 inv2 db2, exists e, import_meta ck c2 req2 pr2 inv2 (firstn n stream) db2 = (db2, Err e).
+Proof. exact meta_truncation_rejected. Qed.
+Print Assumptions c11_meta_truncation_rejected.
+
+(* ---- the rejection clauses of the case monitor are these theorems ---------------------------- *)
+(* on what the model answers (checksum = CRC-32, any stream, any tables, no cancellation) the
+   monitor's "rejected => untouched" clauses hold: message importer on an empty store; metadata
+   importer without token invalidation on any store *)
+Theorem c11_model_satisfies_monitor :
+  (forall orc stream tgt' e,
+     import_reader crc None orc stream [] = (tgt', Err e) ->
+     mstep_monitor (MImport true [] stream orc None (Err e) tgt') = 0)
+  /\ (forall mode req stream before db' e, mode <= 2 ->
+        import_meta crc None req (1 <=? mode) false stream before = (db', Err e) ->
+        xstep_monitor (XImport mode before req stream None (Err e) db') = 0).
+Proof. exact model_satisfies_monitor. Qed.
+Print Assumptions c11_model_satisfies_monitor.
+
+(* ---- non-vacuity ------------------------------------------------------------------------------- *)
+Example c11_example_uvarint : put_uvarint 300 = [172; 2] /\ get_uvarint [172; 2; 9] = Some (300, [9])
+                              /\ get_uvarint [128; 0] = Some (0, []).     (* not canonical, still read *)
+Proof. vm_compute. repeat split; reflexivity. Qed.
+
+(* an empty snapshot of hash slot 5: export, import into an empty store, export again *)
+Example c11_example_empty_roundtrip :
+  export_msg crc [] [] 5 [] = Ok (hx "574b4d42000100050000000033e8c812")
+  /\ import_reader crc None [] (hx "574b4d42000100050000000033e8c812") [] = ([], Ok (ST 5 0 0 0))
+  /\ import_reader crc None [] (hx "574b4d42000100050000000033e8c8") [] = ([], Err ECorruptValue)
+  /\ import_reader crc None [] (hx "574b4d42000100050000000033e8c813") [] = ([], Err EChecksum).
+Proof. vm_compute. repeat split; reflexivity. Qed.
+
+(* the metadata importer installs a one-entry stream and rejects a key of another hash slot *)
+Example c11_example_meta :
+  import_meta crc None [7] false false (seal crc (enc_meta_payload (RM [7] 1 [k4_bad]))) [] = ([k4_bad], Ok 1)
+  /\ import_meta crc None [8] false false (seal crc (enc_meta_payload (RM [8] 1 [k4_bad]))) [k4_old] = ([k4_old], Err EInvalid).
+Proof. vm_compute. repeat split; reflexivity. Qed.
